@@ -99,6 +99,26 @@ func c19Case(c *hx.Ctx, r *hx.RNG, idx int64) {
 					k.u = oracle.Val{Form: oracle.Inf, Neg: k.x.Neg != k.y.Neg}
 				}
 			}
+			alias := r.Chance(12) // receiver is also an operand: value not judged (documented caveat), latch behaviour still is
+			if alias && m.prec >= 1 && m.prec <= 150 && r.Chance(30) && k.op != "Set" && k.op != "Neg" && k.op != "Abs" && k.op != "Sqrt" {
+				// the aliased receiver changes class when the context rounds it: all nines in the top decade, more of them
+				// than the context keeps - a finite operand on entry, an infinity (in the modes that round up) once the
+				// context has prepared the receiver; the other operand makes that a NaN
+				n := int(m.prec) + r.Range(1, 12)
+				k.x = oracle.Val{Form: oracle.Finite, Neg: r.Bool(), Coef: new(big.Int).Sub(oracle.Pow10(int64(n)), big.NewInt(1)), Exp: oracle.MaxExp - int64(n)}
+				switch k.op {
+				case "Add":
+					k.y = oracle.Val{Form: oracle.Inf, Neg: !k.x.Neg}
+				case "Sub":
+					k.y = oracle.Val{Form: oracle.Inf, Neg: k.x.Neg}
+				case "Mul":
+					k.y = oracle.Val{Form: oracle.Zero, Neg: r.Bool()}
+				case "Quo":
+					k.y = oracle.Val{Form: oracle.Inf, Neg: r.Bool()}
+				case "FMA":
+					k.y, k.u = oracle.Val{Form: oracle.Zero, Neg: r.Bool()}, r.Finite(3, 0)
+				}
+			}
 			k.attrs(r)
 			k.p = m.prec // (attrs may pick a precision of its own for the receiver: here the context decides)
 			X := hx.Mk(k.x, opPrec(k.x, k.xp), k.xm)
@@ -109,9 +129,13 @@ func c19Case(c *hx.Ctx, r *hx.RNG, idx int64) {
 			if r.Bool() {
 				z.SetInt64(int64(r.U64() >> 20))
 			}
-			alias := r.Chance(12) // receiver is also an operand: value not judged (documented caveat), latch behaviour still is
 			if alias {
 				z = X
+				// the context rounds its receiver to its own precision and mode before the operation: the operand the
+				// operation sees is the rounded one (an infinity if the rounding carries out of the range)
+				if k.x.Form == oracle.Finite && m.prec >= 1 {
+					k.x = oracle.Ident(k.x).Expect(m.prec, m.mode).V
+				}
 			}
 			pre := hx.RawOf(z)
 			inject := 0
